@@ -245,8 +245,8 @@ def sources(rng):
     rids = [rng.choice([5, 9, 9, 20]) for _ in range(3)]
     s = {}
     for i in range(3):
-        s[i + 1] = (i + 1, i + 1, rids[i], roles[i])
-        s[i + 11] = (i + 11, i + 1, rids[i], roles[i])
+        for g in range(6):
+            s[i + 1 + 10 * g] = (i + 1 + 10 * g, i + 1, rids[i], roles[i])
     return s
 
 def gen_history(rng, n_ops, evpn=False, long_paths=False, limits=False, deferral=False, weights=None):
@@ -271,7 +271,9 @@ def gen_history(rng, n_ops, evpn=False, long_paths=False, limits=False, deferral
         elif k == 'rem':
             ops.append(('rem', s, rng.choice(nets), rng.choice([0, 0, 0, 1, 2]), ctr))
         elif k == 'drop':
+            # the session ends: its counter dies with it, the peer comes back with a new Source
             ops.append(('drop', 0, addr, None))
+            live_tok[addr] = live_tok[addr] + 10 if live_tok[addr] + 10 < 60 else live_tok[addr]
         elif k == 'dropk':
             ops.append(('drop', rng.choice([1, 2, 3]), addr, ctr))
         elif k == 'restale':
@@ -280,8 +282,8 @@ def gen_history(rng, n_ops, evpn=False, long_paths=False, limits=False, deferral
             ops.append(('nhv', rng.choice([1, 2, 3]), rng.random() < 0.5))
         elif k == 'reconnect':
             # the peer's session restarts: later operations of this peer use a new Source
-            if live_tok[addr] < 10:
-                live_tok[addr] = addr + 10
+            if live_tok[addr] + 10 < 60:
+                live_tok[addr] = live_tok[addr] + 10
         elif k == 'deferral':
             ops.append(('startdef',) if rng.random() < 0.5 else ('enddef',))
-    return dict(shard=rng.choice([0, 0, 1, 3]), addrs=[1, 2, 3], ctrs=[1, 2, 3, 11, 12, 13], evpn=evpn, ops=ops)
+    return dict(shard=rng.choice([0, 0, 1, 3]), addrs=[1, 2, 3], ctrs=[a + 10 * g for g in range(6) for a in (1, 2, 3)], evpn=evpn, ops=ops)
